@@ -78,6 +78,13 @@ def monoVal [One K] (ny : Nat) (sym : Bool) (k : Nat) : K :=
   let v : K := if k % 2 = 0 then 1 else -1
   if !sym && decide (monoFlipFrom ny ≤ k) then -v else v
 
+/-- `RadiusComp.setup`: entry `k < 12 (ny − 1)` of the declared `rows`, `cols` of `d radius / d mesh`: six leading-edge entries per
+element (`mesh[0, j:j+2, :]`), then the same six at the trailing edge (`mesh[nx−1, j:j+2, :]`, offset `(nx − 1)·3·ny`) -/
+def radRow (ny k : Nat) : Nat := (k % (6 * (ny - 1))) / 6
+def radCol (nx ny k : Nat) : Nat :=
+  let r := k % (6 * (ny - 1))
+  r % 6 + 3 * (r / 6) + (if k < 6 * (ny - 1) then 0 else (nx - 1) * 3 * ny)
+
 end
 end Glue
 end OAS
